@@ -137,7 +137,10 @@ def wrap_func(func, ranges=False):
     def wrapper(*args, **kwargs):
         # noinspection PyBroadException
         try:
-            return func(*args, **kwargs)
+            res = func(*args, **kwargs)
+            if isinstance(res, (float, np.floating)) and not np.isfinite(res):
+                return np.asarray([[Error.errors['#NUM!']]], object)
+            return res
         except FoundError as ex:
             return np.asarray([[ex.err]], object)
         except InvalidRangeError:
